@@ -972,6 +972,11 @@ class ConstructedPayloadDecoderBase(AbstractConstructedPayloadDecoder):
                 if component is eoo.endOfOctets:
                     break
 
+                if namedTypes and not isSetType and len(namedTypes) <= idx:
+                    raise error.PyAsn1Error(
+                        'Excessive components decoded at %r' % (asn1Object,)
+                    )
+
                 if not isDeterministic and namedTypes:
                     if isSetType:
                         idx = namedTypes.getPositionByType(component.effectiveTagSet)
